@@ -190,8 +190,8 @@ pub fn run(ctx: &Ctx) -> i32 {
                         let got = std::fs::read_to_string(&outp).unwrap_or_default();
                         if p.code != Some(0) {
                             ctx.violation("thor:exit-status", &format!("exit status {:?}", p.code), case());
-                        } else if got != j {
-                            ctx.violation("thor:output-file-differs", "the file written with -o is not the library's model JSON", case());
+                        } else if got != j && Model::from_json(&got).ok().and_then(|m| m.as_json().ok()).as_deref() != Some(j.as_str()) {
+                            ctx.violation("thor:output-file-differs", "the file written with -o is not (one JSON document that loads as) the library's model", case());
                         }
                         if !p.stdout.is_empty() {
                             ctx.violation("thor:stdout-not-empty", &format!("thor wrote {} bytes to standard output without -v", p.stdout.len()), case());
